@@ -17,6 +17,7 @@ import (
 	berrors "go.etcd.io/bbolt/errors"
 
 	"go.etcd.io/bbolt/verifh/model"
+	"go.etcd.io/bbolt/verifh/refdec"
 )
 
 // IOEvent is one recorded I/O call of the data file.
@@ -524,6 +525,8 @@ func (e *Env) apply(op Op) *Violation {
 		return nil
 	case OpClosedTxUse:
 		return e.closedTxProbe()
+	case OpTearMeta:
+		return e.tearMeta(op)
 	case OpArmFault:
 		e.FailAt = e.EventN + int(op.U)
 		e.Failed = nil
@@ -876,4 +879,67 @@ func (e *Env) closedTxProbe() *Violation {
 func Guard(what string, f func() *Violation) (v *Violation) {
 	defer recoverViol(&v, what)
 	return f()
+}
+
+// tearMeta simulates an interrupted meta write of a transaction that never completed: the database is
+// closed, the first op.U bytes of the OLDER meta slot are overwritten with a valid would-be newer meta
+// (txid+1), and the file is reopened. The newest committed state is unchanged.
+func (e *Env) tearMeta(op Op) *Violation {
+	if e.DB == nil || e.RW != nil || len(e.RO) > 0 || e.PageSize == 0 {
+		return nil
+	}
+	ps := e.PageSize
+	if err := e.CloseDB(); err != nil {
+		return Violf("close before tearing a meta page: %v", err)
+	}
+	data, err := os.ReadFile(e.Path)
+	if err != nil || len(data) < 2*ps {
+		return Violf("tearmeta: cannot read file: %v", err)
+	}
+	rf, rerr := refdec.Open(data, ps)
+	if rerr != nil || rf.Current() == nil {
+		return Violf("tearmeta: no valid meta in the file at rest: %v", rerr)
+	}
+	newer, older := rf.Current().Slot, 1-rf.Current().Slot
+	txid := func(slot int) uint64 { return rf.Current().Txid }
+	// would-be newer meta: copy of the newest with txid+1 (checksum left stale on purpose when the prefix is short;
+	// a full 80-byte prefix would be a complete valid meta, so the prefix is capped at 71 bytes: checksum missing)
+	img := append([]byte(nil), data[newer*ps:newer*ps+80]...)
+	img[0] = byte(older)
+	t := txid(newer) + 1
+	for i := 0; i < 8; i++ {
+		img[16+48+i] = byte(t >> (8 * uint(i)))
+	}
+	n := int(op.U)
+	if n < 57 {
+		n = 57 // must at least reach into the txid field, otherwise nothing changes
+	}
+	if n > 71 {
+		n = 71
+	}
+	fh, err := os.OpenFile(e.Path, os.O_RDWR, 0)
+	if err != nil {
+		return Violf("tearmeta: %v", err)
+	}
+	_, err = fh.WriteAt(img[:n], int64(older*ps))
+	fh.Close()
+	if err != nil {
+		return Violf("tearmeta: %v", err)
+	}
+	e.Label("meta-torn")
+	o := e.Opts
+	if op.Opts != nil {
+		o = *op.Opts
+	}
+	o.PageSize = 0
+	if err := e.Open(o); err != nil {
+		return Violf("Open after a torn write into the older meta slot: %v", err)
+	}
+	if v := e.CheckCommitted("after reopening with a torn older meta"); v != nil {
+		return v
+	}
+	if e.AfterOpen != nil {
+		return e.AfterOpen(e)
+	}
+	return nil
 }
